@@ -54,8 +54,9 @@ type regSys struct {
 	postCheck func(s *regSys, op Op, out Outcome) // property-specific invariants after each checked transition
 	// onStep runs after every transition, also while replaying (check=false):
 	// history monitors rebuild their state here and report only when check is set.
-	depth    int              // search depth of the state being produced (set by vstate.BFS)
-	opFilter func(op Op) bool // optional restriction of the enabled operations in the current state
+	backdoor ociregistry.Interface // the registry underneath a wrapper, for operations made behind the wrapper's back
+	depth    int                   // search depth of the state being produced (set by vstate.BFS)
+	opFilter func(op Op) bool      // optional restriction of the enabled operations in the current state
 	onStep   func(s *regSys, op Op, out Outcome, check bool) (tainted bool)
 	noOracle bool // the reference model only tracks (follows the implementation); no model comparison
 	sub      string
@@ -262,6 +263,8 @@ func (s *regSys) exec(op Op) (out Outcome) {
 		return outcomeOf(h.Commit(dig))
 	case "Cancel":
 		return outcomeOf(ociregistry.Descriptor{}, s.handles[op.H].Cancel())
+	case "BackdoorDeleteManifest":
+		return outcomeOf(ociregistry.Descriptor{}, s.backdoor.DeleteManifest(ctx, op.Repo, sha256Digest(u.Manifests[op.M].Data)))
 	case "Reads":
 		for _, q := range s.queries {
 			runQuery(ctx, s.reg, q)
